@@ -155,3 +155,65 @@ func H_C05_along() {
 	}
 	vrt.Reach("done")
 }
+
+// bigVector builds a vector of n elements for the size-ladder harnesses: elements are fixed small
+// integers except a handful of solver-chosen ones (head, tail, and every 509th position), so that a
+// whole-tensor statistic is decided by the solver while the interpretation stays linear in n.  What the
+// ladder is for: code paths that exist only above a size threshold (chunked or parallel folds).
+func bigVector(name string, n int, tailOnly bool) (T, []float64) {
+	e := make([]float64, n)
+	for k := range e {
+		// (a running maximum that is symbolic early nests one ite per later element: extrema get the
+		// solver-chosen elements at the tail only)
+		if k >= n-9 || (!tailOnly && (k < 2 || k%509 == 0)) {
+			e[k] = vrt.Float(name, k)
+		} else {
+			e[k] = float64(k%7 - 3)
+		}
+	}
+	return fromFlat(e, []int{n}, false), e
+}
+
+// H_C05_big: whole-tensor reductions and the Along forms of a [n/8, 8]-shaped matrix at ladder sizes.
+func H_C05_big() {
+	op := vrt.SParam("op")
+	n := vrt.Param("n")
+	x, xe := bigVector("x", n, op == "Max" || op == "Min")
+	checkStat(op, applyFull(op, x), xe)
+	if n%8 == 0 {
+		m, err := x.Reshape([]int{n / 8, 8})
+		if err != nil {
+			vrt.Assume(false)
+		}
+		checkStat(op, applyFull(op, m), xe)
+		if op != "Sum" {
+			vrt.Reach("done")
+			return
+		}
+		cols, err := m.SumAlong(0)
+		vrt.Assert("SumAlong accepted", err == nil)
+		if err == nil {
+			want := make([]float64, 8)
+			for k := range xe {
+				want[k%8] += xe[k]
+			}
+			checkTensor("SumAlong(0) of a tall matrix", cols, []int{8}, want)
+		}
+	}
+	vrt.Reach("done")
+}
+
+// H_C05_fp: bit-precise (IEEE-754 binary64) sign of the variance: for every vector of n finite elements
+// of magnitude <= 1e6, Var is a number >= 0 and Std is a number >= 0 (not NaN).  A one-pass formula
+// (sum x^2 - (sum x)^2/n) loses this to cancellation.
+func H_C05_fp() {
+	n := vrt.Param("n")
+	x, xe := mk("x", []int{n}, false)
+	for k := range xe {
+		vrt.Assume(vrt.And(xe[k] >= -1e6, xe[k] <= 1e6))
+	}
+	v := x.Var()
+	vrt.Assert("bit-precise: Var is a number >= 0 (not NaN, not negative)", v >= 0)
+	vrt.Assert("bit-precise: Var of magnitudes <= 1e6 is finite", v <= 1e300)
+	vrt.Reach("done")
+}
